@@ -27,7 +27,7 @@ fn main() {
         property: "C18",
         rule: "a case is non-trivial when at least one statement committed with a non-empty change list (so that a later AS OF read has something to get wrong); distinct by the sequence of receipts",
         cfg: runner::Cfg { history: true, atomicity: false },
-        cases: (320, 12000),
+        cases: (320, 7000),
         len: (7, 12),
     });
 }
